@@ -37,7 +37,7 @@ from ..engine.resolver import ClassInfo, FuncInfo, Program, body_walk
 from ..engine.terms import Poly, TermEval, flow_eval
 from ..engine.util import find_calls, method_call, node_calls, node_writes, nodes_with_call, normal_edge, u
 from ._c15_util import (
-    all_ctors, analysis_view, bound_args, cancel_and_gather, ctor_kind, guarded_by_emptiness, loop_binding, match_send,
+    all_ctors, analysis_view, anchors, bound_args, cancel_and_gather, ctor_kind, guarded_by_emptiness, loop_binding, match_send,
     method_params, name_delta, result_fields, self_calls, set_growth, set_term, show_term,
     subscript_atom, typed_param,
 )
@@ -226,9 +226,10 @@ class BatteryRoles:
     """
 
     def __init__(self, prog: Program) -> None:
-        self.dp = _norm(prog, prog.func(f"{BM}._distribute_power"))
-        self.sd = _norm(prog, prog.func(f"{BM}._set_distributed_power"))
-        self.pr = _norm(prog, prog.func(f"{BM}._parse_result"))
+        anc = anchors(prog)
+        self.dp = _norm(prog, anc.get("bm.dist"))
+        self.sd = _norm(prog, anc.get("bm.send"))
+        self.pr = _norm(prog, anc.get("bm.parse"))
         dp = self.dp
         self.req = request_param(dp)
         dist = typed_param(dp, "DistributionResult", "distribution")
@@ -236,7 +237,7 @@ class BatteryRoles:
             raise AnalysisError(f"{dp.qual}: no `DistributionResult` parameter")
         self.dist = dist
         self.dp_cfg = CFG(dp.node, dp.file)
-        self.unpack, self.sd_call, names = _unpack_of(dp, "_set_distributed_power")
+        self.unpack, self.sd_call, names = _unpack_of(dp, self.sd.name)
         pfs = [c for c in all_ctors(dp.node) if ctor_kind(c) == "PartialFailure"]
         if not pfs:
             raise AnalysisError(f"{dp.qual}: no PartialFailure is ever built")
@@ -269,16 +270,25 @@ class BatteryRoles:
             raise AnalysisError(f"{dp.qual}: one element of the returned pair is used as failed power and failed set")
         self.failed_pow, self.failed_set = names[i_pow], names[i_set]
         # through _set_distributed_power ...
-        self.pr_call, perm = _passthrough(prog, self.sd, "_parse_result")
+        self.pr_call, perm = _passthrough(prog, self.sd, self.pr.name)
         j_pow, j_set = perm[i_pow], perm[i_set]
         # ... into _parse_result's returned pair
         rets = [n for n in body_walk(self.pr.node) if isinstance(n, ast.Return)]
         got: set[tuple[str, str]] = set()
         for r in rets:
             v = r.value
-            if not (isinstance(v, ast.Tuple) and len(v.elts) == 2 and all(isinstance(e, ast.Name) for e in v.elts)):
-                raise AnalysisError(f"{self.pr.qual}: a return is not a (failed power, failed set) pair of locals")
-            got.add((v.elts[j_pow].id, v.elts[j_set].id))  # type: ignore[attr-defined]
+            if not (isinstance(v, ast.Tuple) and len(v.elts) == 2):
+                raise AnalysisError(f"{self.pr.qual}: a return is not a (failed power, failed set) pair")
+            pair = []
+            for e, what, rule in ((v.elts[j_pow], "failed power", "C15.FAIL"), (v.elts[j_set], "failed set", "C15.FAIL")):
+                if isinstance(e, ast.Name):
+                    pair.append(e.id)
+                else:
+                    # e.g. a constant: the local is never updated, so the view shows its only value
+                    pair.append(f"<{what}>")
+                    self.issues.append((rule, r, f"the {what} returned by {self.pr.name} is `{u(e)}`, not an "
+                                        "accumulator updated in the result loop"))
+            got.add((pair[0], pair[1]))
         if len(got) != 1:
             raise AnalysisError(f"{self.pr.qual}: returns disagree on the (failed power, failed set) pair")
         (self.pr_pow, self.pr_set), = got
@@ -425,7 +435,7 @@ def check_fail(run: Run, prog: Program, roles: BatteryRoles, battery_only: bool 
     out: dict[str, dict[str, str]] = {}
     targets = [(roles.pr, CFG(roles.pr.node, roles.pr.file), roles.pr_pow, roles.pr_set)]
     if not battery_only:
-        pv = _norm(prog, prog.func(f"{PV}._set_api_power"))
+        pv = _norm(prog, anchors(prog).get("pv.api"))
         pv_cfg = CFG(pv.node, pv.file)
         targets.append((pv, pv_cfg, *pv_roles(prog, pv, pv_cfg)))
     for fn, cfg, fp_name, fs_name in targets:
@@ -615,7 +625,7 @@ def check_sets(run: Run, prog: Program, roles: BatteryRoles) -> None:
               node=fn.node, file=fn.file,
               instance=f"{fn.qual}: addressed batteries derived from every entry of the distribution")
     # PV: per iteration exactly one of succeeded.add / failed.add
-    pv = _norm(prog, prog.func(f"{PV}._set_api_power"))
+    pv = _norm(prog, anchors(prog).get("pv.api"))
     run.analysed(pv.qual)
     cfg = CFG(pv.node, pv.file)
     _r, hd, key, _tm, body = result_loop(cfg, pv.qual)
@@ -706,7 +716,7 @@ def _cancel_helper_ok(prog: Program, callee: FuncInfo) -> bool:
 
 
 def check_all(run: Run, prog: Program, roles: BatteryRoles, loops_info: dict[str, dict[str, str]]) -> None:
-    pv = _norm(prog, prog.func(f"{PV}._set_api_power"))
+    pv = _norm(prog, anchors(prog).get("pv.api"))
     sd = roles.sd
     pr_info = loops_info.get(roles.pr.qual)
     pv_info = loops_info.get(pv.qual)
@@ -769,7 +779,7 @@ def check_all(run: Run, prog: Program, roles: BatteryRoles, loops_info: dict[str
                                 cancel_helpers.append((callee, _cancel_helper_ok(prog, callee)))
                                 cancels.append(x.id)
                 readers = nodes_with_call(cfg, lambda c: (isinstance(c.func, ast.Attribute)
-                                          and c.func.attr in ("result", "_parse_result")))
+                                          and c.func.attr in ("result", roles.pr.name)))
                 ok = bool(cancels) and bool(readers)
                 if ok:
                     wit = cfg.path(waits[0], readers, avoid=cancels)
@@ -845,7 +855,7 @@ def check_pv_pairing(run: Run, prog: Program, info: dict[str, dict[str, str]]) -
     + Δ(ledger) == 0, the ledger starts as request.power, the map starts empty."""
     from ..engine import normalize as nz
 
-    sa = _norm(prog, prog.func(f"{PV}._set_api_power"))
+    sa = _norm(prog, anchors(prog).get("pv.api"))
     dp = _norm(prog, prog.func(f"{PV}.distribute_power"))
     run.analysed(dp.qual)
     sa_info = info.get(sa.qual)
@@ -860,9 +870,9 @@ def check_pv_pairing(run: Run, prog: Program, info: dict[str, dict[str, str]]) -
     if len(rem_params) != 1 or next(iter(rem_params)) not in params or sa_info["alloc"] not in params:
         raise AnalysisError(f"{sa.qual}: the reported excess / the allocation map are not parameters")
     rem_p, alloc_p = next(iter(rem_params)), sa_info["alloc"]
-    calls = find_calls(dp.node, lambda c: method_call(c, "self", "_set_api_power"))
+    calls = find_calls(dp.node, lambda c: method_call(c, "self", sa.name))
     if len(calls) != 1:
-        raise AnalysisError(f"{dp.qual}: expected one call of self._set_api_power, found {len(calls)}")
+        raise AnalysisError(f"{dp.qual}: expected one call of self.{sa.name}, found {len(calls)}")
     args = bound_args(calls[0], params, f"{dp.qual}: self._set_api_power(...)")
     req = request_param(dp)
     ledger, amap = args.get(rem_p), args.get(alloc_p)  # type: ignore[arg-type]
@@ -898,7 +908,7 @@ def check_pv_pairing(run: Run, prog: Program, info: dict[str, dict[str, str]]) -
                 touched.append(st)
             elif isinstance(st, (ast.AugAssign, ast.Delete, ast.Expr)) and any(
                     isinstance(x, ast.Name) and x.id == M for x in ast.walk(st)) and not any(
-                    isinstance(x, ast.Call) and (u(x.func).startswith("_logger.") or method_call(x, "self", "_set_api_power"))
+                    isinstance(x, ast.Call) and (u(x.func).startswith("_logger.") or method_call(x, "self", sa.name))
                     for x in ast.walk(st)):
                 # the map is changed in a way the pairing cannot account for (update/pop/del/+=)
                 d_cells = d_cells + Poly.atom(f"<{u(st)[:40]}>")
